@@ -76,7 +76,14 @@ class Entity(ABC):
         self._partially_hidden = False
         self._public = True
 
-        map_attributes(self, **kwargs)
+        try:
+            map_attributes(self, **kwargs)
+        except Exception:
+            # A refused attribute must not leave this entity behind in its parent
+            children = getattr(self._parent, "_children", None)
+            if children is not None and self in children:
+                children.remove(self)
+            raise
 
         self.workspace.register(self)
 
